@@ -30,6 +30,7 @@ def moves_of(f, local):
 
 def check(F, rep):
     rep.clause("linearity of the reply channel: in State::handle_msg_resolve_remote and RemotePathState::resolve_remote the oneshot sender is, on every path, either used for an immediate reply or queued; every queued sender is drained and replied to in emit_pending_resolve_requests (move semantics give at-most-once)")
+    rep.clause("both terminal arms of the lookup stream (end, error) call address_lookup_finished on every path of the arm (must-pass-through on the helper-inlined CFG), so queued requests cannot stay unanswered when the lookup ends without a path")
     rep.clause("correctness of the reply: the immediate Ok is sent exactly when the path set is non-empty (and the request queued exactly when it is empty - the invariant insert_multiple's wake-up relies on); a failure is only ever produced in emit_pending_resolve_requests under paths.is_empty(); it is called from insert_open_path, insert_multiple (only on the empty->non-empty transition) and address_lookup_finished (only from the two terminal lookup arms)")
     rep.clause("paths are only removed by prune_non_relay_paths")
     rep.undecided("`never loses all paths` (pruning arithmetic, C23) and lookup liveness")
@@ -132,16 +133,47 @@ def check(F, rep):
             em_arg = operand_sources(f, t["args"][1], follow=True)
             rep.ob("reply", em_arg == {("agg", "core::option::Option::None")}, site(f, b), "without a lookup error", skey(F, f, "no-error"))
     cs2 = call_sites(F, PS + "::address_lookup_finished", crates=["iroh"])
-    rep.floor("who_calls", "callers of address_lookup_finished", len(cs2), 2)
+    hi0 = get_fn(F, rep, ST + "::handle_address_lookup_item")
+    from ..inline import inlined
+    hi = inlined(F, hi0)
     for f, b, t, kind in cs2:
         rep.fn(f)
-        rep.ob("who_calls", source_fn(F, f) == ST + "::handle_address_lookup_item", site(f, b), "address_lookup_finished called from %s" % source_fn(F, f), skey(F, f, "finished-caller"))
-    hi = get_fn(F, rep, ST + "::handle_address_lookup_item")
+        ok = source_fn(F, f) == ST + "::handle_address_lookup_item"
+        if not ok and f.vis != "pub" and f.file == hi0.file:
+            # a private helper of handle_address_lookup_item (every call of it comes from there)
+            hc = call_sites(F, f.npath, crates=["iroh"])
+            ok = bool(hc) and all(source_fn(F, g) == ST + "::handle_address_lookup_item" for g, _, _, _ in hc)
+        rep.ob("who_calls", ok, site(f, b), "address_lookup_finished called from %s" % source_fn(F, f), skey(F, f, "finished-caller"))
     hdu = defuse(hi)
     fin = find_calls(hi, PS + "::address_lookup_finished")
+    rep.floor("who_calls", "address_lookup_finished calls in handle_address_lookup_item (helpers inlined)", len(fin), 2)
     insm = find_calls(hi, PS + "::insert_multiple")
     if fin and insm:
         rep.ob("reply", all(insm[0][0] not in hi.reachable(b) and b not in hi.reachable(insm[0][0]) for b, t in fin), site(hi), "the lookup is declared finished only on the terminal arms (stream end / stream error), never on an item", skey(F, hi, "finished-terminal"))
+    # every terminal arm declares the lookup finished on all of its paths (otherwise queued
+    # requests stay unanswered when the stream ends without having produced a path)
+    arms = {}
+    for b in sorted(hi.reachable(0)):
+        t = hi.blocks[b]["t"]
+        if t["k"] != "switch" or op_local(t["d"]) is None:
+            continue
+        for st in hi.blocks[b]["s"]:
+            if st["k"] == "a" and st["lhs"]["l"] == op_local(t["d"]) and st["rv"]["k"] == "discr":
+                pl = st["rv"]["p"]
+                flds = tuple(e[2] if e[2] else str(e[1]) for e in pl.get("p", []) if e[0] == "f")
+                srcs = {((x[0], x[1], tuple(x[2]) + flds) if len(x) == 3 else x) for x in copy_sources(hi, pl["l"])} if pl["l"] != 2 else {("arg", 2, flds)}
+                ty = str(hi.locals[pl["l"]]) if not pl.get("p") else None
+                for v, tg in t["targets"]:
+                    if srcs == {("arg", 2, ())} and int(v) == 0:
+                        arms.setdefault("stream end (None)", set()).add(tg)
+                    if srcs == {("arg", 2, ("0",))} and int(v) == 1:
+                        arms.setdefault("stream error (Some(Err))", set()).add(tg)
+    rep.exact("reply", "terminal arms found in handle_address_lookup_item (stream end, stream error)", len(arms), 2)
+    rets = {b for b in hi.reachable(0) if hi.blocks[b]["t"]["k"] == "return"}
+    finb = {b for b, t in fin}
+    for name, entries in sorted(arms.items()):
+        leak = [e for e in entries if rets & hi.reachable(e, removed_blocks=finb)]
+        rep.ob("reply", not leak, site(hi, min(entries)), "on %s every path calls address_lookup_finished (no condition can skip answering the queued requests)" % name, skey(F, hi0, "terminal-always-finishes:" + name.split(" (")[0].replace(" ", "-")))
     # removals from paths
     rem = []
     for f in F.all_fns(crates=["iroh"], callee_regex=r"HashMap::(remove|retain|clear|drain|remove_entry|extract_if)$"):
